@@ -1928,7 +1928,7 @@ def c14_post(cases, impl, model):
 
 
 PROPS["C14"] = {
-    "gen": c14_gen, "oracle": c14_oracle, "post": c14_post,
+    "gen": c14_gen, "oracle": c14_oracle, "post": c14_post, "extra_props": ["C14Mut"],
     "rule": "random well-formed programs of the C02/C05 grammar (depth <= 5, sequences, redundant parentheses): the five immutable and five mutable iterators against the identifier occurrences of the generating AST in source order with their classes; the tree after rewriting through all five mutable iterators; fixed shapes (non-last children with grandchildren, empty parenthesis nodes, n-ary sequence nodes); pairs program / consistently renamed program+context evaluated and compared; non-trivial = at least one identifier",
     "nontrivial": lambda c, out: "ids[]" not in out,
     "assumptions": ["occurrence list computed by tools/props.py from the generating AST: used only to search for failing inputs",
